@@ -420,6 +420,15 @@ func runFaultSuite(rep *Report, tier string, seed int64, prop string) {
 		rep.Extra["hammer_repetitions"] = n
 	}
 	if prop == "C16" {
+		for _, api := range apis() {
+			for _, how := range []string{"cancelled", "deadline"} {
+				rep.Evaluations++
+				rep.Distinct++
+				if msg := c16DoneCtxCall(api, how); msg != "" {
+					rep.addViolation("property", "C16:done-context-call:"+api, msg, map[string]any{"suite": "C16-done-context", "api": api, "context": how})
+				}
+			}
+		}
 		n := 300
 		if tier == "thorough" {
 			n = 6000
@@ -531,4 +540,42 @@ func c03Hammer(i int) string {
 	<-done
 	p.wg.Wait()
 	return msg
+}
+
+// c16DoneCtxCall: a healthy link, one call made with a context that is ALREADY done (cancelled / past its
+// deadline), in both directions.  Only that call fails; Link keeps blocking and later calls work.
+func c16DoneCtxCall(api, how string) string {
+	p, err := NewPair(jsonRaw(), PairOpts{API: api})
+	if err != nil {
+		return "setup: " + err.Error()
+	}
+	defer p.Shutdown()
+	ra, _, _ := p.A.AnyRemote()
+	rb, _, _ := p.B.AnyRemote()
+	for _, rem := range []Remote{ra, rb} {
+		ctx, cancel := context.WithCancel(context.Background())
+		if how == "deadline" {
+			cancel()
+			ctx, cancel = context.WithDeadline(context.Background(), time.Now().Add(-time.Second))
+		}
+		cancel()
+		r := withWatchdog(func() (any, error) { return rem.Echo(ctx, 1, "dead-on-arrival") })
+		if !r.ok {
+			return "a call made with a done context hangs"
+		}
+		if r.err == nil {
+			continue // the response won the race: allowed
+		}
+	}
+	select {
+	case e := <-p.A.LinkErr:
+		return fmt.Sprintf("a call made with an already-done per-call context (%s) ended the link: Link returned %q although the link's context is live and the transport healthy", how, e)
+	case e := <-p.B.LinkErr:
+		return fmt.Sprintf("a call made with an already-done per-call context (%s) ended the peer's link: Link returned %q", how, e)
+	case <-time.After(30 * time.Millisecond):
+	}
+	if r := withWatchdog(func() (any, error) { return ra.Echo(context.Background(), 2, "after") }); !r.ok || r.err != nil {
+		return fmt.Sprintf("after a call with a done context the link no longer works: %+v", r)
+	}
+	return ""
 }
